@@ -5,7 +5,7 @@
    3. the engine as merged sequential loop histories: callbacks_confined,
       callbacks_serial, loops_overlap. *)
 From Coq Require Import List ZArith String Bool Arith Lia.
-From GV Require Import Lib.Trace Model.Loop Model.FootprintCore.
+From GV Require Import Lib.Trace Model.Loop Model.FootprintCore Model.Footprint.
 Import ListNotations.
 Open Scope string_scope.
 Open Scope list_scope.
@@ -164,3 +164,643 @@ Theorem race_free_sound :
          (ex : list (event loc)) (own : nat -> loc -> ostate),
     disciplined loc ex own -> ~ race loc ex.
 Proof. intros loc loc_dec ex own H. eapply no_race_of_disciplined; eauto. Qed.
+
+(* ================================================================== *)
+(* 2. a table the checker accepts: conforming executions obey the discipline *)
+
+Lemma akind_eqb_eq : forall a b, akind_eqb a b = true -> a = b.
+Proof. destruct a, b; cbn; congruence. Qed.
+
+Lemma akind_eqb_refl : forall a, akind_eqb a a = true.
+Proof. destruct a; reflexivity. Qed.
+
+Lemma role_eqb_eq : forall a b, role_eqb a b = true -> a = b.
+Proof. destruct a, b; cbn; congruence. Qed.
+
+Lemma role_eqb_refl : forall a, role_eqb a a = true.
+Proof. destruct a; reflexivity. Qed.
+
+Lemma cloc_eqb_eq : forall a b, cloc_eqb a b = true <-> a = b.
+Proof.
+  intros [o f] [o' f']. unfold cloc_eqb. cbn. rewrite andb_true_iff, Nat.eqb_eq, String.eqb_eq.
+  split; [intros [-> ->]; reflexivity|intro H; inversion H; auto].
+Qed.
+
+Lemma cloc_dec : forall a b : cloc, {a = b} + {a <> b}.
+Proof. intros a b. destruct (cloc_eqb a b) eqn:E; [left; apply cloc_eqb_eq; exact E|right; intro H; apply cloc_eqb_eq in H; congruence]. Qed.
+
+Lemma has_guard_In : forall g v gs, has_guard g v gs = true -> In (g, v) gs.
+Proof.
+  intros g v gs H. unfold has_guard in H. apply existsb_exists in H. destruct H as [[g' v'] [Hin H]].
+  cbn in H. apply andb_true_iff in H. destruct H as [Hg Hv]. apply String.eqb_eq in Hg. apply Bool.eqb_prop in Hv.
+  subst. exact Hin.
+Qed.
+
+Lemma In_has_guard : forall g v gs, In (g, v) gs -> has_guard g v gs = true.
+Proof.
+  intros g v gs H. unfold has_guard. apply existsb_exists. exists (g, v). split; [exact H|].
+  cbn. rewrite String.eqb_refl, Bool.eqb_reflx. reflexivity.
+Qed.
+
+Lemma guards_eqb_sub : forall a b g v, guards_eqb a b = true -> has_guard g v a = true -> In (g, v) b.
+Proof.
+  intros a b g v H Hg. unfold guards_eqb in H. apply andb_true_iff in H. destruct H as [H _].
+  apply andb_true_iff in H. destruct H as [_ H]. rewrite forallb_forall in H.
+  apply has_guard_In in Hg. specialize (H _ Hg). cbn in H. apply has_guard_In. exact H.
+Qed.
+
+Section ClassFacts.
+  Variables (xs : list exc) (ws : list writer).
+
+  Lemma class_imm_live : forall f, class_of xs ws f = CImmutable -> live xs ws f = [].
+  Proof.
+    intros f H. unfold class_of in H. destruct (live xs ws f) as [|w rest]; [reflexivity|].
+    destruct (forallb _ (w :: rest)); destruct (forallb _ rest && _); discriminate.
+  Qed.
+
+  Lemma class_ao_single : forall f r, class_of xs ws f = CAtomicOwned r -> single_threaded r = true.
+  Proof.
+    intros f r H. unfold class_of in H. destruct (live xs ws f) as [|w rest]; [discriminate|].
+    destruct (forallb _ (w :: rest)); destruct (forallb _ rest && single_threaded (w_role w)) eqn:E; try discriminate.
+    inversion H; subst. apply andb_true_iff in E. apply E.
+  Qed.
+
+  Lemma class_ob_single : forall f r, class_of xs ws f = COwnedBy r -> single_threaded r = true.
+  Proof.
+    intros f r H. unfold class_of in H. destruct (live xs ws f) as [|w rest]; [discriminate|].
+    destruct (forallb _ (w :: rest)); destruct (forallb _ rest && single_threaded (w_role w)) eqn:E; try discriminate.
+    inversion H; subst. apply andb_true_iff in E. apply E.
+  Qed.
+
+  Lemma live_intro : forall w f,
+    In w ws -> w_loc w = f -> w_init w = false -> w_role w <> ROut ->
+    existsb (fun x => exc_match x (w_role w) (w_fn w) (w_loc w) (w_kind w)) xs = false ->
+    In w (live xs ws f).
+  Proof.
+    intros w f Hin Hl Hi Hr Hx. unfold live, writers_of. apply filter_In. split.
+    - apply filter_In. split; [exact Hin|]. rewrite Hl. apply String.eqb_refl.
+    - rewrite Hi, Hx. cbn. destruct (w_role w); cbn; try reflexivity. exfalso; apply Hr; reflexivity.
+  Qed.
+End ClassFacts.
+
+Lemma cover_write : forall ws t rw a,
+  writers_cover ws t = true -> In rw t -> In a (r_acc rw) -> is_write (a_kind a) = true -> a_owned a = false ->
+  r_role rw <> ROut /\
+  exists w, In w ws /\ w_loc w = a_loc a /\ w_kind w = a_kind a /\ w_init w = false /\
+            w_role w = r_role rw /\ w_fn w = a_via a /\ guards_eqb (w_guards w) (a_guards a) = true.
+Proof.
+  intros ws t rw a H Hrw Ha Hw Ho. unfold writers_cover in H. rewrite forallb_forall in H.
+  specialize (H rw Hrw). apply andb_true_iff in H. destruct H as [Hr H].
+  split; [intro E; rewrite E in Hr; discriminate|].
+  rewrite forallb_forall in H. specialize (H a Ha). rewrite Hw, Ho in H. cbn in H.
+  apply existsb_exists in H. destruct H as [w [Hin H]].
+  repeat (apply andb_true_iff in H; destruct H as [H ?]).
+  exists w. repeat split; auto.
+  - apply String.eqb_eq; assumption.
+  - apply akind_eqb_eq; assumption.
+  - apply negb_true_iff; assumption.
+  - apply role_eqb_eq; assumption.
+  - apply String.eqb_eq; assumption.
+Qed.
+
+Section Table.
+  Variable L : layout.
+  Variable xs : list exc.
+  Variable ws : list writer.
+  Variable t : list row.
+  Variable ex : list (event cloc).
+
+  Notation at_ := (at_ cloc ex).
+  Notation hb := (hb cloc ex).
+
+  Hypothesis Htab : race_free_table ws xs t = true.
+  Hypothesis Hcov : writers_cover ws t = true.
+  Hypothesis Hconf : conforms L xs t ex.
+
+  Definition all_guards : guards := flat_map (fun rw => flat_map a_guards (r_acc rw)) t.
+
+  (* the field is never written on this object after publication *)
+  Definition frozen_obj (o : nat) (f : string) : bool :=
+    match class_of xs ws f with CImmutable => true | _ => false end ||
+    existsb (fun p =>
+      match class_of xs ws (fst p) with
+      | CImmutable => forallb (fun w => has_guard (fst p) (negb (snd p)) (w_guards w)) (live xs ws f) &&
+                      Bool.eqb (gval L o (fst p)) (snd p)
+      | _ => false
+      end) all_guards.
+
+  Definition hit (l : cloc) (m : nat) : bool :=
+    match nth_error ex m with Some (Acc _ l' _) => cloc_eqb l' l | _ => false end.
+
+  (* accessed at some step strictly between r and n *)
+  Definition touched (r n : nat) (l : cloc) : bool := existsb (hit l) (seq (S r) (n - S r)).
+
+  Definition post_state (r n o : nat) (f : string) : ostate :=
+    if frozen_obj o f then Frozen r else
+    match class_of xs ws f with
+    | CAtomic => Atom (Some r)
+    | CAtomicOwned r' => AtomOwned (Some r) (home L o r')
+    | COwnedBy r' => if touched r n (o, f) then Own (home L o r') else Released r
+    | _ => Own (creator L o)
+    end.
+
+  (* the ghost owner of every location at every step *)
+  Definition own_of (n : nat) (l : cloc) : ostate :=
+    match pub L (fst l) with
+    | Some r => if n <=? r then Own (creator L (fst l)) else post_state r n (fst l) (snd l)
+    | None => Own (creator L (fst l))
+    end.
+
+  Lemma touched_S : forall r n l, r < n -> touched r (S n) l = touched r n l || hit l n.
+  Proof.
+    intros r n l H. unfold touched.
+    replace (S n - S r) with (S (n - S r)) by lia.
+    rewrite seq_S, existsb_app. cbn [existsb]. rewrite orb_false_r.
+    replace (S r + (n - S r)) with n by lia. reflexivity.
+  Qed.
+
+  Lemma touched_now : forall n l, touched n (S n) l = false.
+  Proof. intros. unfold touched. replace (S n - S n) with 0 by lia. reflexivity. Qed.
+
+  Lemma pub_is_rel : forall o r, pub L o = Some r -> exists s, at_ r = Some (Rel (creator L o) s).
+  Proof. destruct Hconf as [H _]. exact H. Qed.
+
+  (* own_of does not change across a step that is not the publication of the object
+     and does not access the location *)
+  Lemma own_same : forall n l, (forall r, pub L (fst l) = Some r -> r <> n) -> hit l n = false ->
+    own_of (S n) l = own_of n l.
+  Proof.
+    intros n [o f] Hp Hh. unfold own_of. cbn [fst snd] in *.
+    destruct (pub L o) as [r|] eqn:Ep; [|reflexivity].
+    specialize (Hp r eq_refl).
+    destruct (Nat.leb_spec n r) as [E1|E1]; destruct (Nat.leb_spec (S n) r) as [E2|E2]; try lia; try reflexivity.
+    unfold post_state. rewrite touched_S by lia. rewrite Hh, orb_false_r. reflexivity.
+  Qed.
+
+  Lemma table_access_ok : forall rw a r, In rw t -> In a (r_acc rw) -> r_role rw = r ->
+    excepted xs r a = false -> access_ok xs ws r a = true.
+  Proof.
+    intros rw a r Hrw Ha Hr Hx. unfold race_free_table in Htab. rewrite forallb_forall in Htab.
+    specialize (Htab rw Hrw). unfold row_ok in Htab. rewrite forallb_forall in Htab.
+    specialize (Htab a Ha). rewrite Hr, Hx, orb_false_r in Htab. exact Htab.
+  Qed.
+
+  Lemma guard_in_all : forall rw a p, In rw t -> In a (r_acc rw) -> In p (a_guards a) -> In p all_guards.
+  Proof.
+    intros rw a p Hrw Ha Hp. unfold all_guards. apply in_flat_map. exists rw. split; [exact Hrw|].
+    apply in_flat_map. exists a. split; assumption.
+  Qed.
+
+  (* a non-owned write access that really happens on object o: o is not frozen for that field *)
+  Lemma write_not_frozen : forall rw a th o,
+    In rw t -> In a (r_acc rw) -> r_role rw = trole L th -> excepted xs (trole L th) a = false ->
+    a_owned a = false -> is_write (a_kind a) = true ->
+    (forall g v, In (g, v) (a_guards a) -> gval L o g = v) ->
+    frozen_obj o (a_loc a) = false.
+  Proof.
+    intros rw a th o Hrw Ha Hr Hx Ho Hw Hg.
+    destruct (cover_write ws t rw a Hcov Hrw Ha Hw Ho) as [Hnot [w [Hin [Hl [Hk [Hi [Hwr [Hfn Hgs]]]]]]]].
+    assert (Hlive : In w (live xs ws (a_loc a))).
+    { apply live_intro; auto.
+      - rewrite Hwr. exact Hnot.
+      - unfold excepted in Hx. rewrite Hwr, Hfn, Hl, Hk, Hr. exact Hx. }
+    unfold frozen_obj. apply orb_false_iff. split.
+    - destruct (class_of xs ws (a_loc a)) eqn:Ec; try reflexivity.
+      apply class_imm_live in Ec. rewrite Ec in Hlive. destruct Hlive.
+    - destruct (existsb _ all_guards) eqn:E; [|reflexivity]. exfalso.
+      apply existsb_exists in E. destruct E as [[g v] [_ E]]. cbn [fst snd] in E.
+      destruct (class_of xs ws g); try discriminate.
+      apply andb_true_iff in E. destruct E as [Hall Hv].
+      rewrite forallb_forall in Hall. specialize (Hall w Hlive).
+      pose proof (guards_eqb_sub _ _ _ _ Hgs Hall) as Hina.
+      specialize (Hg _ _ Hina). apply Bool.eqb_prop in Hv. rewrite Hg in Hv.
+      destruct v; discriminate.
+  Qed.
+
+  Lemma guard_ok_frozen : forall rw a o,
+    In rw t -> In a (r_acc rw) -> guard_ok xs ws a = true ->
+    (forall g v, In (g, v) (a_guards a) -> gval L o g = v) ->
+    frozen_obj o (a_loc a) = true.
+  Proof.
+    intros rw a o Hrw Ha Hg Hv. unfold guard_ok in Hg. apply andb_true_iff in Hg. destruct Hg as [_ Hg].
+    apply existsb_exists in Hg. destruct Hg as [[g v] [Hin Hg]]. cbn [fst snd] in Hg.
+    unfold frozen_obj. apply orb_true_iff. right. apply existsb_exists. exists (g, v).
+    split; [eapply guard_in_all; eauto|]. cbn [fst snd].
+    destruct (class_of xs ws g); try discriminate. rewrite Hg. cbn.
+    rewrite (Hv _ _ Hin). apply Bool.eqb_reflx.
+  Qed.
+
+  Theorem conforms_disciplined : disciplined cloc ex own_of.
+  Proof.
+    intros n e En. destruct Hconf as [Hpub Hacc].
+    destruct e as [th [o f] k|th s|th s].
+    - (* access *)
+      split.
+      2:{ intros l' Hne. apply own_same.
+          - intros r Hp ->. destruct (Hpub _ _ Hp) as [s Hs]. unfold FootprintCore.at_ in *. congruence.
+          - unfold hit. unfold FootprintCore.at_ in En. rewrite En.
+            destruct (cloc_eqb (o, f) l') eqn:E; [apply cloc_eqb_eq in E; congruence|reflexivity]. }
+      destruct (Hacc n th o f k En) as [rw [a [Hrw [Ha [Hr [Hl [Hk [Hx Hcase]]]]]]]].
+      unfold own_of. cbn [fst snd].
+      destruct Hcase as [[Hc Hun]|[Ho [[r [Hp Hrn]] [Hhome Hgv]]]].
+      + (* construction *)
+        unfold unpublished in Hun. destruct (pub L o) as [r|] eqn:Ep.
+        * specialize (Hun r eq_refl).
+          replace (n <=? r) with true by (symmetry; apply Nat.leb_le; lia).
+          replace (S n <=? r) with true by (symmetry; apply Nat.leb_le; lia).
+          cbn. split; congruence.
+        * cbn. split; congruence.
+      + (* after publication *)
+        rewrite Hp. pose proof (hb_lt _ _ _ _ Hrn) as Hlt.
+        replace (n <=? r) with false by (symmetry; apply Nat.leb_gt; lia).
+        replace (S n <=? r) with false by (symmetry; apply Nat.leb_gt; lia).
+        pose proof (table_access_ok rw a (trole L th) Hrw Ha Hr Hx) as Hok.
+        unfold access_ok in Hok. rewrite Ho in Hok. cbn in Hok.
+        unfold post_state. subst f k.
+        destruct (frozen_obj o (a_loc a)) eqn:Ef.
+        * (* frozen: it must be a read *)
+          cbn. split; [exact Hrn|]. split; [|reflexivity].
+          destruct (is_write (a_kind a)) eqn:Ew; [|reflexivity].
+          rewrite (write_not_frozen rw a th o Hrw Ha Hr Hx Ho Ew Hgv) in Ef. discriminate.
+        * assert (Hg : guard_ok xs ws a = false).
+          { destruct (guard_ok xs ws a) eqn:Eg; [|reflexivity].
+            rewrite (guard_ok_frozen rw a o Hrw Ha Eg Hgv) in Ef. discriminate. }
+          rewrite Hg, orb_false_r in Hok.
+          assert (Hhit : hit (o, a_loc a) n = true).
+          { unfold hit. unfold FootprintCore.at_ in En. rewrite En. apply cloc_eqb_eq. reflexivity. }
+          destruct (class_of xs ws (a_loc a)) eqn:Ec; cbn in Hok.
+          -- unfold frozen_obj in Ef. rewrite Ec in Ef. discriminate.
+          -- cbn. split; [exact Hrn|]. split; [exact Hok|reflexivity].
+          -- cbn. split; [exact Hrn|]. split; [reflexivity|].
+             pose proof (class_ao_single _ _ _ _ Ec) as Hs.
+             apply orb_true_iff in Hok. destruct Hok as [Hok|Hok]; apply andb_true_iff in Hok; destruct Hok as [H1 H2].
+             ++ left. split; [exact H1|]. intro Hw. rewrite Hw in H2. cbn in H2.
+                apply role_eqb_eq in H2. subst r0. apply Hhome. exact Hs.
+             ++ right. apply role_eqb_eq in H1. apply akind_eqb_eq in H2. subst r0.
+                split; [apply Hhome; exact Hs|exact H2].
+          -- pose proof (class_ob_single _ _ _ _ Ec) as Hs.
+             apply role_eqb_eq in Hok. subst r0. specialize (Hhome Hs).
+             rewrite touched_S by lia. rewrite Hhit, orb_true_r.
+             destruct (touched r n (o, a_loc a)); cbn.
+             ++ split; congruence.
+             ++ split; [exact Hrn|congruence].
+          -- discriminate.
+    - (* release *)
+      intros [o f].
+      destruct (pub L o) as [r|] eqn:Ep.
+      + destruct (Nat.eq_dec r n) as [->|Hne].
+        * (* this step publishes o *)
+          destruct (Hpub _ _ Ep) as [s' Hs']. unfold FootprintCore.at_ in *. rewrite En in Hs'.
+          inversion Hs'; subst th s'. clear Hs'.
+          unfold own_of. cbn [fst snd]. rewrite Ep, Nat.leb_refl.
+          replace (S n <=? n) with false by (symmetry; apply Nat.leb_gt; lia).
+          unfold post_state. unfold release_allowed.
+          destruct (frozen_obj o f); [right; split; [reflexivity|]; right; left; reflexivity|].
+          destruct (class_of xs ws f).
+          -- left; reflexivity.
+          -- right; split; [reflexivity|]. right; right; left; reflexivity.
+          -- right; split; [reflexivity|]. right; right; right. eexists; reflexivity.
+          -- rewrite touched_now. right; split; [reflexivity|]. left; reflexivity.
+          -- left; reflexivity.
+        * left. apply own_same; cbn [fst].
+          -- intros r' Hp'. congruence.
+          -- unfold hit. unfold FootprintCore.at_ in En. rewrite En. reflexivity.
+      + left. apply own_same; cbn [fst].
+        * intros r' Hp'. congruence.
+        * unfold hit. unfold FootprintCore.at_ in En. rewrite En. reflexivity.
+    - (* acquire *)
+      intro l. apply own_same.
+      + intros r Hp ->. destruct (Hpub _ _ Hp) as [s' Hs']. unfold FootprintCore.at_ in *. congruence.
+      + unfold hit. unfold FootprintCore.at_ in En. rewrite En. reflexivity.
+  Qed.
+
+  Lemma own_of_init : init_ok cloc own_of.
+  Proof.
+    intros [o f]. left. exists (creator L o). unfold own_of. cbn [fst snd].
+    destruct (pub L o); reflexivity.
+  Qed.
+
+  Theorem table_no_race : ~ race cloc ex.
+  Proof. eapply race_free_sound; [exact cloc_dec|exact conforms_disciplined]. Qed.
+End Table.
+
+(* The table theorem in one statement. *)
+Theorem table_sound : forall L xs ws t ex,
+  race_free_table ws xs t = true -> writers_cover ws t = true -> conforms L xs t ex ->
+  disciplined cloc ex (own_of L xs ws t ex) /\ ~ race cloc ex.
+Proof.
+  intros L xs ws t ex H1 H2 H3. split.
+  - apply conforms_disciplined; assumption.
+  - eapply table_no_race; eassumption.
+Qed.
+
+(* A field all of whose writers run before publication is never written afterwards:
+   in particular a connection never changes loops (conn.loop). *)
+Theorem immutable_not_written : forall L xs ws t ex f,
+  race_free_table ws xs t = true -> writers_cover ws t = true -> conforms L xs t ex ->
+  class_of xs ws f = CImmutable ->
+  forall n th o k, at_ cloc ex n = Some (Acc th (o, f) k) ->
+    (exists r, pub L o = Some r /\ r < n) -> is_write k = false.
+Proof.
+  intros L xs ws t ex f Htab Hcov Hconf Hc n th o k En [r [Hp Hrn]].
+  pose proof (conforms_disciplined L xs ws t ex Htab Hcov Hconf n _ En) as [Hacc _].
+  unfold own_of in Hacc. cbn [fst snd] in Hacc. rewrite Hp in Hacc.
+  replace (n <=? r) with false in Hacc by (symmetry; apply Nat.leb_gt; lia).
+  unfold post_state, frozen_obj in Hacc. rewrite Hc in Hacc. cbn in Hacc. apply Hacc.
+Qed.
+
+(* ================================================================== *)
+(* 3. the engine: merged histories of independent sequential loops *)
+
+Lemma upd_length : forall A (l : list A) k x, List.length (upd l k x) = List.length l.
+Proof. induction l as [|y l IH]; intros [|k] x; cbn; auto. Qed.
+
+Lemma nth_upd_same : forall A (l : list A) k x d, k < List.length l -> nth k (upd l k x) d = x.
+Proof. induction l as [|y l IH]; intros [|k] x d H; cbn in *; try lia; auto. apply IH. lia. Qed.
+
+Lemma nth_upd_other : forall A (l : list A) k j x d, j <> k -> nth j (upd l k x) d = nth j l d.
+Proof.
+  induction l as [|y l IH]; intros [|k] [|j] x d H; cbn; auto; try congruence.
+Qed.
+
+Lemma nth_error_nth' : forall A (l : list A) k x d, nth_error l k = Some x -> nth k l d = x.
+Proof. induction l as [|y l IH]; intros [|k] x d H; cbn in *; try discriminate; [congruence|auto]. Qed.
+
+Lemma nth_all_nil : forall (hs : list (list ev)) k, (forall h, In h hs -> h = []) -> nth k hs [] = [].
+Proof.
+  intros hs k H. destruct (Nat.lt_ge_cases k (List.length hs)) as [Hk|Hk].
+  - apply H. apply nth_In. exact Hk.
+  - apply nth_overflow. exact Hk.
+Qed.
+
+(* the events a loop's goroutine takes, in the order it takes them, are exactly the
+   history of its one sequential polling run *)
+Lemma merge_proj : forall hs g, merge hs g -> forall k, proj k g = nth k hs [].
+Proof.
+  induction 1 as [hs Hn|hs k e rest g Hk Hm IH]; intro j.
+  - cbn. symmetry. apply nth_all_nil. exact Hn.
+  - unfold proj. cbn [filter fst]. destruct (Nat.eqb k j) eqn:E.
+    + apply Nat.eqb_eq in E. subst j. cbn [map snd]. fold (proj k g). rewrite IH.
+      assert (Hlt : k < List.length hs) by (apply nth_error_Some; congruence).
+      rewrite nth_upd_same by exact Hlt. symmetry. eapply nth_error_nth'. exact Hk.
+    + apply Nat.eqb_neq in E. fold (proj j g). rewrite IH. apply nth_upd_other. congruence.
+Qed.
+
+Lemma proj_In : forall k e g, In (k, e) g -> In e (proj k g).
+Proof.
+  intros k e g H. unfold proj. apply in_map_iff. exists (k, e). split; [reflexivity|].
+  apply filter_In. split; [exact H|]. cbn. apply Nat.eqb_refl.
+Qed.
+
+(* Every event -- in particular every OnOpen/OnTraffic/OnClose callback, every
+   asynchronous-write/Wake/Close callback and every Execute runnable -- that the
+   execution attributes to goroutine k was produced by the polling run of loop k on
+   loop k's own input; nothing else emits it. *)
+Theorem callbacks_confined : forall ins g k e,
+  engine_exec ins g -> In (k, e) g -> is_callback e = true ->
+  In e (loop_history (nth k ins [])) /\ k < List.length ins.
+Proof.
+  intros ins g k e Hm Hin _. unfold engine_exec in Hm.
+  pose proof (merge_proj _ _ Hm k) as Hp. apply proj_In in Hin. rewrite Hp in Hin.
+  destruct (Nat.lt_ge_cases k (List.length ins)) as [Hk|Hk].
+  - split; [|exact Hk]. rewrite <- (map_nth loop_history). exact Hin.
+  - rewrite nth_overflow in Hin by (rewrite map_length; exact Hk). destruct Hin.
+Qed.
+
+(* One at a time: what goroutine k does during the execution is, event for event and
+   in the same order, the history of one sequential function call (polling); the
+   callbacks of a loop are therefore totally ordered and never overlap one another
+   (a handler runs from its `cb` line to the `hret` it consumes, and the only
+   callbacks in between are the ones that handler itself causes by calling
+   EventLoop.Close). *)
+Theorem callbacks_serial : forall ins g k,
+  engine_exec ins g -> proj k g = loop_history (nth k ins []).
+Proof.
+  intros ins g k Hm. unfold engine_exec in Hm. rewrite (merge_proj _ _ Hm k).
+  destruct (Nat.lt_ge_cases k (List.length ins)) as [Hk|Hk].
+  - rewrite <- (map_nth loop_history). reflexivity.
+  - rewrite !nth_overflow; try (rewrite ?map_length; exact Hk). reflexivity.
+Qed.
+
+(* the per-loop callback sequence does not depend on how the loops interleave *)
+Corollary callbacks_schedule_independent : forall ins g g' k,
+  engine_exec ins g -> engine_exec ins g' -> proj k g = proj k g'.
+Proof. intros. rewrite !(callbacks_serial ins) by assumption. reflexivity. Qed.
+
+(* callbacks of DIFFERENT loops may overlap: an execution of a two-loop engine in
+   which loop 1 runs an Execute runnable between the start of loop 0's OnOpen
+   handler and its return *)
+Open Scope Z_scope.
+Definition ov_in0 : list line := [
+  ("cfg", [AInt 0; AInt 0; AInt 1024; AInt 3; AInt 1024; AInt 256]);
+  ("accepted", [AInt 5]);
+  ("wait", [AInt 3; AInt 1]);
+  ("r", [ASym "epctl"; AInt 0]);
+  ("hret", [ASym "none"])].
+Definition ov_in1 : list line := [
+  ("cfg", [AInt 0; AInt 0; AInt 1024; AInt 3; AInt 1024; AInt 256]);
+  ("async", [ASym "exec"; AInt 0]);
+  ("wait", [AInt 3; AInt 1])].
+Close Scope Z_scope.
+
+Definition ov_sched : list nat := [0; 0; 0; 0; 0; 0; 1; 1; 1; 1; 1; 0; 0; 0].
+
+(* run a schedule: take the next event of the chosen loop *)
+Fixpoint run_sched (hs : list (list ev)) (s : list nat) : list (nat * ev) :=
+  match s with
+  | [] => []
+  | k :: s' => match nth k hs [] with
+               | [] => run_sched hs s'
+               | e :: rest => (k, e) :: run_sched (upd hs k rest) s'
+               end
+  end.
+
+Lemma upd_nth_same : forall (hs : list (list ev)) k, nth k hs [] = [] -> upd hs k [] = hs.
+Proof. induction hs as [|h hs IH]; intros [|k] E; cbn in *; try congruence. f_equal. apply IH. exact E. Qed.
+
+Lemma nth_cons_error : forall (hs : list (list ev)) k e rest, nth k hs [] = e :: rest -> nth_error hs k = Some (e :: rest).
+Proof. induction hs as [|h hs IH]; intros [|k] e rest E; cbn in *; try discriminate; try congruence. apply IH. exact E. Qed.
+
+Lemma run_sched_merge : forall s hs,
+  (forall h, In h (fold_left (fun hs k => upd hs k (tl (nth k hs []))) s hs) -> h = []) ->
+  (forall k, In k s -> k < List.length hs) ->
+  merge hs (run_sched hs s).
+Proof.
+  induction s as [|k s IH]; intros hs Hend Hk; cbn in *.
+  - apply merge_done. exact Hend.
+  - assert (Hlt : k < List.length hs) by (apply Hk; left; reflexivity).
+    destruct (nth k hs []) as [|e rest] eqn:E.
+    + cbn in Hend. rewrite (upd_nth_same hs k E) in Hend.
+      apply IH; [exact Hend|intros; apply Hk; right; assumption].
+    + cbn in Hend. eapply merge_step.
+      * apply nth_cons_error. exact E.
+      * apply IH; [exact Hend|]. intros k' Hk'. rewrite upd_length. apply Hk. right. exact Hk'.
+Qed.
+
+Example loops_overlap :
+  exists g pre mid post,
+    engine_exec [ov_in0; ov_in1] g /\
+    g = pre ++ [(0, EOut ("cb", [ASym "open"; AInt 0%Z]))] ++ mid ++ [(0, EIn ("hret", [ASym "none"]))] ++ post /\
+    In (1, EOut ("exec", [])) mid.
+Proof.
+  exists (run_sched (map loop_history [ov_in0; ov_in1]) ov_sched).
+  eexists. eexists. eexists. split; [|split].
+  - apply run_sched_merge.
+    + vm_compute. intros h [<-|[<-|[]]]; reflexivity.
+    + vm_compute. intros k H. repeat (destruct H as [<-|H]; [lia|]). destruct H.
+  - vm_compute.
+    match goal with |- ?a :: ?b :: ?c :: ?d :: ?e :: ?rest = _ =>
+      instantiate (3 := [a; b; c; d; e]) end.
+    cbn [app]. do 6 f_equal.
+    match goal with |- ?a :: ?b :: ?c :: ?d :: ?e :: ?rest = _ =>
+      instantiate (2 := [a; b; c; d; e]) end.
+    cbn [app]. reflexivity.
+  - vm_compute. right. right. right. left. reflexivity.
+Qed.
+
+(* ------------------------------------------------------------------ *)
+(* Non-vacuity of table_sound: a small table and an execution that conforms to it
+   (a worker creates connection 7 and hands it to loop 0 through the task queue; the
+   loop opens it and hands it to a user goroutine, which calls Fd() while the loop
+   goes on writing its own fields). *)
+Definition ex_ws : list writer := [
+  mkWr "conn.fd" Wr true RWorker "newStreamConn" [];
+  mkWr "conn.opened" Wr false RLoop "eventloop.open" []].
+
+Definition ex_table : list row := [
+  mkRow "enroll$1" RWorker [mkAcc "conn.fd" Wr true [] "newStreamConn"];
+  mkRow "loop" RLoop [mkAcc "conn.opened" Wr false [] "eventloop.open"; mkAcc "conn.fd" Rd false [] "eventloop.read"];
+  mkRow "conn.Fd" RUser [mkAcc "conn.fd" Rd false [] "conn.Fd"]].
+
+Definition ex_layout : layout :=
+  mkLayout (fun th => match th with 0 => RLoop | 1 => RWorker | _ => RUser end)
+           (fun _ => 1) (fun o => if Nat.eqb o 7 then Some 1 else None) (fun _ _ => 0) (fun _ _ => false).
+
+Definition ex_exec : list (event cloc) := [
+  Acc 1 (7, "conn.fd") Wr;
+  Rel 1 100;
+  Acq 0 100;
+  Acc 0 (7, "conn.opened") Wr;
+  Acc 0 (7, "conn.fd") Rd;
+  Rel 0 101;
+  Acq 2 101;
+  Acc 2 (7, "conn.fd") Rd;
+  Acc 0 (7, "conn.opened") Wr].
+
+Example ex_table_ok : race_free_table ex_ws [] ex_table = true /\ writers_cover ex_ws ex_table = true.
+Proof. split; vm_compute; reflexivity. Qed.
+
+Example ex_conforms : conforms ex_layout [] ex_table ex_exec.
+Proof.
+  assert (H12 : hb cloc ex_exec 1 2) by (eapply hb_sw; [lia|reflexivity|reflexivity]).
+  assert (H23 : hb cloc ex_exec 2 3) by (eapply hb_po; [lia|reflexivity|reflexivity|reflexivity]).
+  assert (H24 : hb cloc ex_exec 2 4) by (eapply hb_po; [lia|reflexivity|reflexivity|reflexivity]).
+  assert (H25 : hb cloc ex_exec 2 5) by (eapply hb_po; [lia|reflexivity|reflexivity|reflexivity]).
+  assert (H28 : hb cloc ex_exec 2 8) by (eapply hb_po; [lia|reflexivity|reflexivity|reflexivity]).
+  assert (H56 : hb cloc ex_exec 5 6) by (eapply hb_sw; [lia|reflexivity|reflexivity]).
+  assert (H67 : hb cloc ex_exec 6 7) by (eapply hb_po; [lia|reflexivity|reflexivity|reflexivity]).
+  split.
+  - intros o r H. cbn in H. destruct (Nat.eqb o 7) eqn:E; [|discriminate]. inversion H; subst.
+    exists 100. reflexivity.
+  - intros n th o f k H.
+    destruct n as [|[|[|[|[|[|[|[|[|n]]]]]]]]]; cbn in H; try (destruct n; discriminate); try discriminate;
+      inversion H; subst; clear H.
+    + exists (nth 0 ex_table (mkRow "" RUser [])), (mkAcc "conn.fd" Wr true [] "newStreamConn").
+      cbn. repeat split; auto. left. split; [reflexivity|]. intros r Hr. inversion Hr. lia.
+    + exists (nth 1 ex_table (mkRow "" RUser [])), (mkAcc "conn.opened" Wr false [] "eventloop.open").
+      cbn. repeat split; auto. right. repeat split; auto.
+      * exists 1. split; [reflexivity|]. eapply hb_tr; eauto.
+      * intros g v [].
+    + exists (nth 1 ex_table (mkRow "" RUser [])), (mkAcc "conn.fd" Rd false [] "eventloop.read").
+      cbn. repeat split; auto. right. repeat split; auto.
+      * exists 1. split; [reflexivity|]. eapply hb_tr; eauto.
+      * intros g v [].
+    + exists (nth 2 ex_table (mkRow "" RUser [])), (mkAcc "conn.fd" Rd false [] "conn.Fd").
+      cbn. repeat split; auto. right. repeat split; auto.
+      * exists 1. split; [reflexivity|]. eapply hb_tr; [exact H12|]. eapply hb_tr; [exact H25|]. eapply hb_tr; eauto.
+      * discriminate.
+      * intros g v [].
+    + exists (nth 1 ex_table (mkRow "" RUser [])), (mkAcc "conn.opened" Wr false [] "eventloop.open").
+      cbn. repeat split; auto. right. repeat split; auto.
+      * exists 1. split; [reflexivity|]. eapply hb_tr; eauto.
+      * intros g v [].
+Qed.
+
+Example ex_no_race : ~ race cloc ex_exec.
+Proof. eapply table_no_race; [apply ex_table_ok|apply ex_table_ok|apply ex_conforms]. Qed.
+
+(* ... and the definition of a race is not vacuous: the defect recorded as finding
+   cc-during-start, as an execution.  Thread 0 runs gnet.Run: it has handed the Engine
+   to user code in OnBoot (step 0 publishes the load balancer, object 1) and then
+   registers an event loop; thread 1, started by OnBoot, calls CountConnections. *)
+Definition racy_exec : list (event cloc) := [
+  Rel 0 100;
+  Acq 1 100;
+  Acc 0 (1, "baseLoadBalancer.eventLoops") Wr;
+  Acc 1 (1, "baseLoadBalancer.eventLoops") Rd].
+
+Lemma racy_hb_shape : forall i j, hb cloc racy_exec i j ->
+  (i = 2 /\ j = 3 -> False).
+Proof.
+  intros i j H. induction H as [i j x y Hlt Hi Hj Ht|i j t t' s Hlt Hi Hj|i k j H1 IH1 H2 IH2]; intros [-> ->].
+  - cbn in Hi, Hj. inversion Hi; inversion Hj; subst. discriminate.
+  - cbn in Hi. discriminate.
+  - pose proof (hb_lt _ _ _ _ H1). pose proof (hb_lt _ _ _ _ H2). lia.
+Qed.
+
+Example cc_during_start_refuted : race cloc racy_exec.
+Proof.
+  exists 2, 3, 0, 1, (1, "baseLoadBalancer.eventLoops"), Wr, Rd.
+  repeat split; try reflexivity; try lia.
+  intro H. eapply racy_hb_shape; eauto.
+Qed.
+
+(* ------------------------------------------------------------------ *)
+(* the real tables *)
+
+(* a connection's loop: every writer of conn.loop is a constructor write *)
+Lemma conn_loop_class : class_of exceptions justified_writers "conn.loop" = CImmutable /\
+                        forallb w_init (writers_of "conn.loop" justified_writers) = true /\
+                        writers_of "conn.loop" justified_writers <> [].
+Proof.
+  split. { vm_compute. reflexivity. }
+  split. { vm_compute. reflexivity. }
+  vm_compute. discriminate.
+Qed.
+
+Theorem conn_loop_fixed : forall L t ex,
+  race_free_table justified_writers exceptions t = true -> writers_cover justified_writers t = true ->
+  conforms L exceptions t ex ->
+  forall n th o k, at_ cloc ex n = Some (Acc th (o, "conn.loop") k) ->
+    (exists r, pub L o = Some r /\ r < n) -> is_write k = false.
+Proof.
+  intros L t ex H1 H2 H3. eapply immutable_not_written; [exact H1|exact H2|exact H3|apply conn_loop_class].
+Qed.
+
+(* the classification the real writers give to the fields the property names *)
+Lemma key_classes :
+  map (class_of exceptions justified_writers)
+      ["conn.fd"; "conn.loop"; "conn.isDatagram"; "conn.proto"; "eventloop.poller"; "eventloop.engine";
+       "conn.safeCtx"; "engine.inShutdown"; "netpoll.Poller.wakeupCall"; "connMatrix.connCount"; "connMatrix.connCounts[]";
+       "conn.opened"; "conn.outboundBuffer"; "conn.remote"; "roundRobinLoadBalancer.nextIndex"] =
+  [CImmutable; CImmutable; CImmutable; CImmutable; CImmutable; CImmutable;
+   CAtomic; CAtomicOwned REngine; CAtomic; CAtomicOwned RLoop; CAtomicOwned RLoop;
+   COwnedBy RLoop; COwnedBy RLoop; COwnedBy RLoop; COwnedBy RAcceptor].
+Proof. vm_compute. reflexivity. Qed.
+
+Lemma findings_listed : map x_loc (findings exceptions) = ["baseLoadBalancer.eventLoops"; "baseLoadBalancer.eventLoops[]"].
+Proof. vm_compute. reflexivity. Qed.
+
+(* the runner on a well-behaved run and on a run with a foreign goroutine *)
+Example run_footprint_ok :
+  run_footprint [("b", [AInt 0; AInt 7; AInt 1]); ("b", [AInt 1; AInt 9; AInt 2]); ("e", [AInt 0; AInt 7; AInt 1]);
+                 ("e", [AInt 1; AInt 9; AInt 2]); ("b", [AInt 0; AInt 7; AInt 1]); ("b", [AInt 0; AInt 7; AInt 1]);
+                 ("e", [AInt 0; AInt 7; AInt 1]); ("e", [AInt 0; AInt 7; AInt 1])]%Z
+  = [obs "verdict" [AInt 0; AInt 0; AInt 0]]%Z.
+Proof. vm_compute. reflexivity. Qed.
+
+Example run_footprint_bad :
+  run_footprint [("b", [AInt 0; AInt 7; AInt 1]); ("b", [AInt 0; AInt 8; AInt 1]); ("e", [AInt 0; AInt 8; AInt 1]);
+                 ("e", [AInt 0; AInt 7; AInt 1]); ("b", [AInt 1; AInt 9; AInt 1]); ("e", [AInt 1; AInt 9; AInt 1])]%Z
+  = [obs "verdict" [AInt 1; AInt 1; AInt 1]]%Z.
+Proof. vm_compute. reflexivity. Qed.
